@@ -474,7 +474,13 @@ func (ro *RedisOutput) parseAofReplayUnits(replayQuit usync.WaitCloser, reader *
 		case unitBuf <- unit:
 			return nil
 		case <-replayQuit.Context().Done():
-			return replayQuit.Error()
+			// A WaitCloser derived from a context is Done as soon as the parent is cancelled, but
+			// its Error()/IsClosed() are only set a moment later. Never report success for a unit
+			// that was not enqueued: the parser would go on and a later unit could still be sent.
+			if err := replayQuit.Error(); err != nil {
+				return err
+			}
+			return replayQuit.Context().Err()
 		}
 	}
 
